@@ -11,7 +11,7 @@ import numpy as np
 from .. import _weighting
 from .._compat import diags
 from .._validation import _check_optional_array, _check_scalar_variable
-from ..utils import _MIN_FLOAT, relative_difference
+from ..utils import _MIN_FLOAT, _sort_array2d, relative_difference
 from ._algorithm_setup import _Algorithm2D
 from ._whittaker_utils import PenalizedSystem2D
 
@@ -194,6 +194,9 @@ class _Whittaker(_Algorithm2D):
             )
             baseline = self._polynomial.vandermonde @ (pseudo_inverse @ data.ravel())
             weights = _weighting._asls(data, baseline.reshape(self._shape), p)
+            # have to invert the weight ordering to match the original input y ordering
+            # since it will be sorted within _setup_whittaker
+            weights = _sort_array2d(weights, self._inverted_order)
 
         y, weight_array, whittaker_system = self._setup_whittaker(data, lam, diff_order, weights)
         penalized_system_1 = PenalizedSystem2D(self._shape, lam_1, diff_order=1)
